@@ -1,6 +1,6 @@
 import Ledger.Driver.HistH
-import Ledger.Driver.QueryCommon
-import Ledger.Reads.Select
+import Ledger.Driver.QueryTemplate
+import Ledger.Reads.RunQuery
 
 /-!
 Handler `reads` of `ldriver_reads`: one `vrreads` case = a sequential history executed by the REAL
@@ -227,6 +227,39 @@ def anyNullSensitive (feat : Features) (s : RState) (kind : String) (q : RQuery)
   | "listTransactions" => (transactionsAt feat s.ledger q.pit).any fun v => nullSensitive true q.filter (txEntity v)
   | _ => false
 
+/-- Identities of the rows the filter selects under the DOCUMENTED meaning of `$in` on
+    `metadata[k]` (membership), for the listings where the real code renders a containment that
+    never matches. `none` = not applicable (grouped volumes, logs, errors). -/
+def docMetaInIds (feat : Features) (s : RState) (kind : String) (q : RQuery) : Option (List Json) :=
+  let l := s.ledger
+  match kind with
+  | "listAccounts" => some (((accountsAt feat l q.pit).filter fun v =>
+      selectsV .membership true q.filter (accountEntity v (accountBalances l q.pit v.address))).map fun v => Json.str v.address)
+  | "listTransactions" => some (((transactionsAt feat l q.pit).filter fun v =>
+      selectsV .membership true q.filter (txEntity v)).map fun v => (v.id : Json))
+  | "volumes" =>
+    if q.groupLvl > 0 then none else
+    match volumesDataset feat l q.pit q.oot q.insertionDate with
+    | .error _ => none
+    | .ok rows =>
+      let windowed := q.pit.isSome || q.oot.isSome
+      some ((rows.filter fun r => selectsV .membership false q.filter
+        (volEntity r (volMetaRead feat l windowed q.pit r.account) ((firstUsage l r.account).getD 0))).map
+        fun r => Json.str (r.account ++ "|" ++ r.asset))
+  | _ => none
+
+def rowId (kind : String) (r : Json) : Json :=
+  match kind with
+  | "listAccounts" => Json.str (strOf r "address")
+  | "volumes" => Json.str (strOf r "account" ++ "|" ++ strOf r "asset")
+  | _ => (r.getObjVal? "id").toOption.getD Json.null
+
+/-- Tags `f:<field>:<operator>` of the leaves of a filter (input distribution). -/
+def leafTags (f : Option Filter) : List String :=
+  match f with
+  | none => []
+  | some f => (f.leaves.map fun l => s!"f:{(splitKey l.2.1).1}{if (splitKey l.2.1).2.isSome then "[]" else ""}:{l.1.toString}").eraseDups
+
 def errOf (ans : Json) : Option String :=
   match ans.getObjVal? "err" with
   | .ok (.str e) => some e
@@ -288,7 +321,7 @@ def listPredicates (pid : String) (feat : Features) (l : Ledger) (kind : String)
           (match optInt x "revertedAt" with | some r => r ≤ t | none => true)
       | none => true
     (ok, "C05:pit-transactions:timestamp-or-reverted-after-pit")
-  | "volumes", "C05" | "volumes", "C02" | "volumes", "C04" =>
+  | "volumes", "C05" | "volumes", "C02" | "volumes", "C04" | "volumes", "C01" =>
     let cons := q.filter.isSome || conservedRows data
     let bal := data.all fun r => bigOf r "balance" == bigOf r "input" - bigOf r "output"
     (cons && bal, if !cons then s!"{pid}:volumes-listing:not-conserved" else s!"{pid}:volumes-listing:balance-not-input-minus-output")
@@ -324,12 +357,19 @@ def checkList (pid : String) (feat : Features) (s : RState) (kind : String) (q :
       let complete := q.filter.isNone && !first.hasMore && ls.rows.length == data.length
       let (pp, why) := listPredicates pid feat s.ledger kind q complete data
       let countProp := countProp || pid != "C20"
+      -- C20 under the documented meaning of `$in` on metadata[k] (membership)
+      let metaInOk := pid != "C20" || !usesMetaIn q.filter || first.hasMore || (match docMetaInIds feat s kind q with
+        | some ids => ids.isPerm (data.map (rowId kind))
+        | none => true)
+      let pp := pp && metaInOk
+      let why := if metaInOk then why else "C20:metadata-in-never-matches"
       let prop := countProp && pp
       let tags := tags ++ (if !exact && same then ["ties-reordered"] else []) ++
         (if data.isEmpty then ["empty"] else []) ++
         (if q.filter.isSome && !data.isEmpty && data.length < (match listingOf feat s kind { q with filter := none } with
             | .ok all => all.rows.length | .error _ => 0) then ["filter-proper-subset"] else []) ++
-        (if anyNullSensitive feat s kind q then ["null-under-not"] else [])
+        (if anyNullSensitive feat s kind q then ["null-under-not"] else []) ++
+        (if pid == "C20" then leafTags q.filter else [])
       if same && more && countOk then
         { agree := true, prop, tags,
           sig := if prop then "" else if !countProp then s!"C20:{kind}:count-ne-listed" else why,
@@ -410,7 +450,9 @@ def checkAggregated (pid : String) (feat : Features) (s : RState) (q : RQuery) (
       | _ => false)
     if real == exp then
       { agree := true, prop, tags, sig := if prop then "" else s!"{pid}:aggregated:not-conserved" }
-    else mismatch pid q "balances" exp tags
+    else
+      let m := mismatch pid q "balances" exp tags
+      { m with prop, sig := if prop then m.sig else s!"{pid}:aggregated:not-conserved" }
 
 def encPageOut (ls : Listing) (p : PageOut) : Json :=
   Json.mkObj [("keys", Json.arr (p.tags.map (nth ls.ids)).toArray), ("hasMore", p.hasMore),
@@ -420,7 +462,10 @@ def keysOfPage (p : Json) : List Json := arrOf p "keys"
 
 def checkWalk (feat : Features) (s : RState) (q : RQuery) (ans : Json) : Check :=
   let kind := listKind q.res
-  let tags := ["q:walk:" ++ q.res]
+  let tags := ["q:walk:" ++ q.res] ++
+    (if q.res == "volumes" then
+      [s!"walk:volumes:{if q.groupLvl > 0 then s!"group{q.groupLvl}" else "flat"}{if q.pit.isSome then "+pit" else ""}{if q.oot.isSome then "+oot" else ""}{if q.filter.isSome then "+filter" else ""}"]
+     else [])
   match listingOf feat s kind q with
   | .error e =>
     if errOf ans == some e.toString then { agree := true, tags := tags ++ ["err:" ++ e.toString] }
@@ -444,8 +489,16 @@ def checkWalk (feat : Features) (s : RState) (q : RQuery) (ans : Json) : Check :
       -- in the requested order; no page exceeds the page size; the last page has no `next`;
       -- following `previous` from the last page walks the same pages backwards
       let allKeys := rfwd.flatMap keysOfPage
+      -- with ties in the sort column (volumes: several assets per account) the rows of one account
+      -- may come in any order, but the accounts themselves must be in the requested order
+      let acctOf (j : Json) : String := match j with
+        | .str k => (k.splitOn "|").headD ""
+        | _ => ""
+      let accts := allKeys.map acctOf
+      let inOrder := (accts.zip (accts.drop 1)).all fun (a, b) =>
+        match ls.order with | .asc => decide (a ≤ b) | .desc => decide (b ≤ a)
       let once := if keysDistinct then allKeys == ls.ids
-                  else allKeys.length == ls.ids.length && allKeys.isPerm ls.ids
+                  else allKeys.length == ls.ids.length && allKeys.isPerm ls.ids && inOrder
       let sizes := rfwd.all fun p => (keysOfPage p).length ≤ effPageSize q.pageSize
       let lastOk := match rfwd.getLast? with | some p => !boolOf p "next" | none => false
       let backOk := (rback.map keysOfPage) == ((rfwd.dropLast.reverse).map keysOfPage) || !keysDistinct
@@ -465,42 +518,113 @@ def checkWalk (feat : Features) (s : RState) (q : RQuery) (ans : Json) : Check :
       else { mismatch "C21" q "pages" (Json.mkObj [("pages", Json.arr (fwd.map (encPageOut ls)).toArray),
                 ("back", Json.arr (back.map (encPageOut ls)).toArray)]) tags with prop }
 
-def checkRunQuery (feat : Features) (s : RState) (q : RQuery) (direct : Option RQuery) (ans : Json) : Check :=
+/-! ### RunQuery through builder-query's model -/
+
+def varValOfDefault : Json → VarVal
+  | .str s => .str s
+  | .bool b => .bool b
+  | .null => .null
+  | .num n => if n.exponent == 0 then .num (toString n.mantissa) else .other
+  | _ => .other
+
+/-- A stored template (`schema.Queries[id]`) from its JSON. -/
+def decStoredTemplate (j : Json) : Except String StoredTemplate := do
+  let resource ← strField j "resource"
+  let body ← match j.getObjVal? "body" with
+    | .ok b => (Q.parseBuilder b).mapError fun e => "template body: " ++ e
+    | .error _ => pure none
+  let vars ← (Q.objPairsT ((j.getObjVal? "vars").toOption.getD Json.null)).mapM fun (k, d) => do
+    match d with
+    | .str ts => match Q.ftypeOfString ts with
+      | some t => pure (k, ({ type := t } : VarDecl))
+      | none => throw "decl type"
+    | _ => match Q.ftypeOfString (optStrField d "type") with
+      | some t => pure (k, ({ type := t, default := varValOfDefault ((d.getObjVal? "default").toOption.getD Json.null) } : VarDecl))
+      | none => throw "decl type"
+  let params ← match j.getObjVal? "params" with
+    | .ok pj => (Q.parseParams (resource == "volumes") pj.compress).mapError fun e => "template params: " ++ e
+    | .error _ => pure none
+  pure { tmpl := { resource, body, vars }, params }
+
+/-- The variables of a run (`{"t": type, "v": value, "float": bool}` per variable). -/
+def decCallVars (j : Json) : Vars :=
+  (Q.objPairsT j).map fun (k, v) =>
+    let val := (v.getObjVal? "v").toOption.getD Json.null
+    (k, match optStrField v "t" with
+      | "int" =>
+        let lit := match val with | .str s => s | .num n => toString n.mantissa | _ => ""
+        if optBool v "float" then (match lit.toInt? with | some i => VarVal.float i 0 | none => .other) else .num lit
+      | "boolean" => (match val with | .bool b => .bool b | _ => .other)
+      | _ => (match val with | .str s => .str s | _ => .other))
+
+def rqueryOfList (res : String) (lq : ListQuery) : RQuery :=
+  { k := listKind res, res, pit := lq.pit, oot := lq.oot, insertionDate := lq.insertionDate, groupLvl := lq.groupLvl,
+    filter := lq.filter, expand := lq.expand, sort := lq.sort, order := lq.order, pageSize := lq.pageSize }
+
+def sameQuery (a b : RQuery) : Bool :=
+  a.pit == b.pit && a.oot == b.oot && a.insertionDate == b.insertionDate && a.groupLvl == b.groupLvl &&
+  (a.filter.map Q.filterToJson) == (b.filter.map Q.filterToJson) && sortStrings a.expand == sortStrings b.expand &&
+  a.sort == b.sort && a.order == b.order && a.pageSize == b.pageSize
+
+def checkRunQuery (feat : Features) (s : RState) (tmpl : Option Json) (qj : Json) (q : RQuery) (direct : Option RQuery) (ans : Json) : Check :=
   let tags := ["q:runquery:" ++ q.res]
-  match direct with
-  | none =>
-    -- a run that must be rejected (unknown template / bad variables)
-    { agree := (errOf ans).isSome, tags := tags ++ ["err:" ++ ((errOf ans).getD "none")],
-      sig := if (errOf ans).isSome then "" else s!"C37:{shapeOf q}:expected-error" }
-  | some d =>
-    let kind := listKind d.res
-    let run := arrOf ans "run"
-    let dir := arrOf ans "direct"
-    let same := errOf ans == none && !(hasKey ans "directErr") && run.length == dir.length &&
-      (run.zip dir).all fun (a, b) => arrOf a "data" == arrOf b "data" && boolOf a "hasMore" == boolOf b "hasMore" &&
-        (a.getObjVal? "pageSize").toOption == (b.getObjVal? "pageSize").toOption
-    let bothErr := (errOf ans).isSome && run.isEmpty && dir.isEmpty &&
-      (ans.getObjVal? "directErr").toOption == (ans.getObjVal? "err").toOption
-    let prop := same || bothErr
-    match listingOf feat s kind d with
+  let run := arrOf ans "run"
+  let dir := arrOf ans "direct"
+  -- the property on the REAL answers: RunQuery = the equivalent direct list call, page by page
+  let same := errOf ans == none && !(hasKey ans "directErr") && run.length == dir.length &&
+    (run.zip dir).all fun (a, b) => arrOf a "data" == arrOf b "data" && boolOf a "hasMore" == boolOf b "hasMore" &&
+      (a.getObjVal? "pageSize").toOption == (b.getObjVal? "pageSize").toOption
+  let bothErr := (errOf ans).isSome && run.isEmpty && dir.isEmpty &&
+    (ans.getObjVal? "directErr").toOption == (ans.getObjVal? "err").toOption
+  let prop := direct.isNone || same || bothErr
+  -- the model: builder-query's RunQuery (resolveTemplate + Overwrite + templateParamsToQuery) ending in
+  -- the list endpoint of Ledger.Reads
+  let modelTarget : Except String (String × ListQuery) :=
+    match tmpl with
+    | none => .error "unknown-template"
+    | some tj =>
+      match decStoredTemplate tj with
+      | .error e => .error e
+      | .ok st =>
+        match (match qj.getObjVal? "params" with
+            | .ok pj => Q.parseParams (st.tmpl.resource == "volumes") pj.compress
+            | .error _ => .ok none) with
+        | .error e => .error ("params: " ++ e)
+        | .ok rp =>
+          match runQueryVia (fun _ lq => lq) st (decCallVars ((qj.getObjVal? "vars").toOption.getD Json.null)) rp with
+          | .error _ => .error "rejected"
+          | .ok r => .ok r
+  match modelTarget with
+  | .error e =>
+    let agree := (errOf ans).isSome
+    { agree, prop, tags := tags ++ ["model-rejects:" ++ e],
+      sig := if !agree then s!"C37:runquery:{q.res}:expected-error" else if prop then "" else s!"C37:runquery:{q.res}:prop:run-ne-direct" }
+  | .ok (res, lq) =>
+    let mq := rqueryOfList res lq
+    let resolvedSame := match direct with | some d => sameQuery mq d | none => true
+    let tags := tags ++ [if resolvedSame then "resolve=generator" else "resolve≠generator"]
+    match listingOf feat s (listKind res) mq with
     | .error e =>
       let agree := errOf ans == some e.toString
       { agree, prop, tags := tags ++ ["err:" ++ e.toString],
-        sig := if agree && prop then "" else s!"C37:{shapeOf d}:{if agree then "prop:run-ne-direct" else "expected-error"}" }
+        sig := if agree && prop then "" else s!"C37:{shapeOf mq}:{if agree then "prop:run-ne-direct" else "expected-error"}" }
     | .ok ls =>
-      let (fwd, _) := pagesOf ls d.pageSize
+      let (fwd, _) := pagesOf ls mq.pageSize
       let keysDistinct := ls.keys.eraseDups.length == ls.keys.length
       let expPages := fwd.map fun p => p.tags.map (nth ls.rows)
-      let agree := if keysDistinct then run.map (arrOf · "data") == expPages
-                   else (run.flatMap (arrOf · "data")).isPerm ls.rows
+      let kindOk := run.all fun p => strOf p "kind" == res
+      let agree := errOf ans == none && kindOk && resolvedSame &&
+        (if keysDistinct then run.map (arrOf · "data") == expPages
+         else (run.flatMap (arrOf · "data")).isPerm ls.rows)
       let tags := tags ++ [s!"pages:{if fwd.length ≥ 3 then "3+" else toString fwd.length}"] ++
         (if ls.rows.isEmpty then ["empty"] else [])
       if agree then
-        { agree, prop, tags, sig := if prop then "" else s!"C37:{shapeOf d}:prop:run-ne-direct",
+        { agree, prop, tags, sig := if prop then "" else s!"C37:{shapeOf mq}:prop:run-ne-direct",
           note := if prop then "" else "RunQuery and the direct list call differ" }
-      else { mismatch "C37" d "run-pages" (Json.arr (expPages.map fun p => Json.arr p.toArray).toArray) tags with prop }
+      else { mismatch "C37" mq (if resolvedSame then "run-pages" else "resolved-query")
+               (Json.arr (expPages.map fun p => Json.arr p.toArray).toArray) tags with prop }
 
-def checkQuery (pid : String) (feat : Features) (s : RState) (qj : Json) (ans : Json) : Except String Check := do
+def checkQuery (pid : String) (feat : Features) (s : RState) (templates : List (String × Json)) (qj : Json) (ans : Json) : Except String Check := do
   let q ← decQuery qj
   if hasKey ans "panic" then
     return { agree := false, prop := false, sig := s!"{pid}:{q.k}{if q.res != "" then ":" ++ q.res else ""}:panic", tags := ["panic"],
@@ -515,7 +639,8 @@ def checkQuery (pid : String) (feat : Features) (s : RState) (qj : Json) (ans : 
     let direct ← match qj.getObjVal? "direct" with
       | .ok .null | .error _ => pure none
       | .ok d => do pure (some (← decQuery d))
-    pure (checkRunQuery feat s q direct ans)
+    let key := optStrField qj "schemaVersion" ++ "/" ++ optStrField qj "template"
+    pure (checkRunQuery feat s (templates.lookup key) qj q direct ans)
   | k => throw s!"unknown query kind {k}"
 
 /-! ### the handler -/
@@ -539,6 +664,8 @@ structure Acc where
   model : Json := Json.null
   tags : List String := []
   nq : Nat := 0
+  /-- `version/id` → stored query template -/
+  templates : List (String × Json) := []
 
 def stepAcc (pid : String) (feat : Features) (a : Acc) (j : Json) : Except String Acc := do
   match j.getObjVal? "q" with
@@ -546,7 +673,7 @@ def stepAcc (pid : String) (feat : Features) (a : Acc) (j : Json) : Except Strin
     match a.answers with
     | [] => throw "fewer answers than queries"
     | ans :: rest =>
-      let c ← checkQuery pid feat a.s qj ans
+      let c ← checkQuery pid feat a.s a.templates qj ans
       let first := a.agree && a.prop
       let bad := !(c.agree && c.prop)
       -- the signature of the case: the first failing predicate if any (that is what known findings
@@ -566,7 +693,10 @@ def stepAcc (pid : String) (feat : Features) (a : Acc) (j : Json) : Except Strin
       let ok := r == o.toString
       let first := a.agree && a.prop
       let ts := [opTag op, "res:" ++ o.toString]
-      pure { a with s := s', results := rest, agree := a.agree && ok,
+      let newT := if optStrField j "op" == "schema" && r == "ok" then
+          (Q.objPairsT ((j.getObjVal? "queries").toOption.getD Json.null)).map fun (id, t) => (optStrField j "version" ++ "/" ++ id, t)
+        else []
+      pure { a with s := s', results := rest, agree := a.agree && ok, templates := newT ++ a.templates,
                     sig := if first && !ok then s!"reads:write-outcome:{opTag op}:model={o.toString}" else a.sig,
                     note := if first && !ok then s!"write outcome: real {r}, model {o.toString}" else a.note,
                     tags := a.tags ++ ts.filter (fun t => !a.tags.contains t) }
@@ -587,7 +717,7 @@ def handleReads : Handler := fun inp out => do
   let backdated := (txs.zip (txs.drop 1)).any fun (x, y) => y.timestamp < x.timestamp
   pure { model := a.model, agree := a.agree, prop := a.prop,
          nontrivial := txs.length ≥ 1 && nonWorld.length ≥ 2 && a.nq ≥ 1,
-         tags := [featTag feat, "wl:" ++ workload, "prop:" ++ pid] ++ a.tags ++ (if backdated then ["back-dated"] else []),
+         tags := [featTag feat, "wl:" ++ workload, "prop:" ++ pid] ++ (if optBool inp "sibling" then ["sibling-ledger-in-bucket"] else ["alone-in-bucket"]) ++ a.tags ++ (if backdated then ["back-dated"] else []),
          sig := a.sig, note := a.note }
 
 def readsHandlers : List (String × Handler) := [("reads", handleReads)]
